@@ -203,7 +203,7 @@ func (c Cfg) dec(v reflect.Value, b []byte, opt string) int {
 			v.SetFloat(0)
 			return 0
 		}
-		v.SetFloat(float64(math.Float32frombits(binary.LittleEndian.Uint32(b))))
+		SetF32Bits(v, binary.LittleEndian.Uint32(b))
 		return 4
 	case k == reflect.Float64:
 		if len(b) == 0 {
